@@ -54,10 +54,11 @@ def correspondence(tier, seed, corpus=()):
         for o in (lits + ["#default", "bogus"]) if lits else ["#none"]:
             for _ in range(6):
                 descs.append(S.gen_case(rng, step=name, opt=o))
-    while len(descs) < n:
+    while len(descs) < n + n // 8:       # a few more than n: cases in which a float operation rounds are dropped
         descs.append(S.gen_case(rng))
     cases, kept, problems = [], [], []
-    hist, paths, fresh = {}, {}, {}
+    hist, paths, fresh, mags = {}, {}, {}, {}
+    dropped = 0
     distinct = set()
     for d in descs:
         try:
@@ -65,8 +66,15 @@ def correspondence(tier, seed, corpus=()):
         except Exception as e:
             problems.append(dict(kind="implementation-raised", case=d, error=repr(e)))
             continue
+        if not info["exact"]:
+            dropped += 1          # some float operation rounded: not comparable with the exact model
+            continue
         if not info["stat_ok"]:
             problems.append(dict(kind="stationary-list-not-derived-from-samples", case=d))
+        if not info["dirs_ok"]:
+            problems.append(dict(kind="caller-list-of-directions-modified", case=d))
+        for mg in info["magnitudes"]:
+            mags["%s:%s" % (d["step"], mg)] = mags.get("%s:%s" % (d["step"], mg), 0) + 1
         cases.append((lit, dump))
         kept.append((d, dump))
         o = info["opt"] or "-"
@@ -88,12 +96,15 @@ def correspondence(tier, seed, corpus=()):
     return dict(name="step-calls", evaluations=len(cases), distinct_nontrivial=len(distinct),
                 rule="seeded random calls of the 8 real step functions (every option, the default and an invalid one; "
                      "leaf / combination / already-evaluated / zero-padded start points; 1-3 leaf functions of 7 class "
-                     "configurations with 0-3 prior samples or constraints; dyadic gamma / epsilon incl. 0 and negatives; "
+                     "configurations with 0-3 prior samples or constraints; gamma / epsilon / coefficients: moderate dyadics "
+                     "incl. 0 and negatives, tiny (2^-30 .. 2^-60, floats nearest to 1e-9, 1e-10, 2.5e-9, 5e-12 given to the "
+                     "model as exact rationals) and huge (2^40); every float operation is monitored for exactness; "
                      "1-3 directions); non-trivial = normal return and (combination start point or non-empty history); "
                      "distinct by full input",
                 mismatches=mism, n_mismatch=len(bad), problems=problems[:5], n_problems=len(problems),
                 samples=[dict(case=kept[i][0], result=kept[i][1]) for i in range(min(2, len(kept)))],
-                distribution=dict(step_option=hist, outcomes=paths, fresh_leaves_created=fresh))
+                distribution=dict(step_option=hist, outcomes=paths, fresh_leaves_created=fresh,
+                                  magnitudes_of_scalars_and_weights=mags, dropped_because_a_float_operation_rounded=dropped))
 
 
 # ------------------------------------------------------------------ failing-input search (implementation only)
@@ -132,7 +143,7 @@ def replay(payload):
             lit, dump, info = S.run_impl(payload["case"])
         except Exception:
             return True
-        if not info["stat_ok"]:
+        if not info["stat_ok"] or not info["dirs_ok"]:
             return True
         return bool(run_cases("c08r", IMPORTS, RUN, [(lit, dump)], input_type=INPUT_TYPE))
     return False
